@@ -22,7 +22,7 @@ FAMILIES = [
     ("hetero", "S", "pack:2 [numa] group:2 [numa] [numa] pu:2", ""),
     ("groups3", "S", "group:2 node:2 group:2 pu:2", ""),
 ]
-QUICK_FAMILIES = ["sym", "nested", "asym", "cpuless", "io", "perm", "sparse", "groups3"]
+QUICK_FAMILIES = ["sym", "nested", "asym", "cpuless", "io", "perm", "sparse", "group"]
 ENV = {"ASAN_OPTIONS": "abort_on_error=1:detect_leaks=0:allocator_may_return_null=1", "UBSAN_OPTIONS": "abort_on_error=1:print_stacktrace=1",
        "HWLOC_DONT_ADD_VERSION_INFO": "1", "HWLOC_HIDE_ERRORS": "2", "LC_ALL": "C", "LANG": "C"}
 TIMEOUT = 25
@@ -54,24 +54,35 @@ class Exec:
     def __init__(self, ctx, helper, bindir):
         self.ctx, self.helper, self.bin = ctx, helper, bindir
         self.n = 0
+        self.lock = __import__("threading").Lock()
 
     def tool(self, name, argv, stdin=None):
+        """one process-level event: stdout / stderr go to files capped at 32 MB (a runaway tool dies of SIGXFSZ, a signal like any other)"""
         e = dict(os.environ)
         e.update(ENV)
+        with self.lock:
+            self.n += 1
+            k = self.n
+        fo, fe = self.ctx.path("o-%d.txt" % k), self.ctx.path("e-%d.txt" % k)
         try:
-            p = subprocess.Popen([os.path.join(self.bin, name)] + argv, stdin=subprocess.DEVNULL, stdout=subprocess.PIPE, stderr=subprocess.PIPE,
-                                 env=e, cwd=self.ctx.dir, start_new_session=True)
-            try:
-                out, err = p.communicate(timeout=TIMEOUT)
-                rc = p.returncode
-            except subprocess.TimeoutExpired:
-                os.killpg(p.pid, signal.SIGKILL)
-                out, err = p.communicate()
-                rc = -9
+            with open(fo, "wb") as so, open(fe, "wb") as se:
+                p = subprocess.Popen(["prlimit", "--fsize=33554432", os.path.join(self.bin, name)] + argv, stdin=subprocess.DEVNULL, stdout=so, stderr=se,
+                                     env=e, cwd=self.ctx.dir, start_new_session=True)
+                try:
+                    rc = p.wait(timeout=TIMEOUT)
+                except subprocess.TimeoutExpired:
+                    os.killpg(p.pid, signal.SIGKILL)
+                    p.wait()
+                    rc = -9
         except OSError as ex:
             raise vlib.Infra("cannot run %s: %s" % (name, ex))
-        out = out.decode("utf-8", "replace")
-        err = err.decode("utf-8", "replace")
+        out = open(fo, "rb").read().decode("utf-8", "replace")
+        with open(fe, "rb") as f:
+            f.seek(0, 2)
+            f.seek(max(0, f.tell() - 65536))
+            err = f.read().decode("utf-8", "replace")
+        os.unlink(fo)
+        os.unlink(fe)
         lines = out.split("\n")
         if lines and lines[-1] == "":
             lines.pop()
@@ -239,7 +250,7 @@ def lstopo_behaviours(fams, thorough):
                     lm = {"of": of, "filt": filt, "xflags": 0, "sflags": fl if of == "synthetic" else 0, "extra": []}
                     behs.append(lstopo_behaviour(fam, lm))
         behs.append(lstopo_behaviour(fam, {"of": "bogus", "filt": "", "xflags": 0, "sflags": 0, "extra": []}))
-        behs.append(lstopo_behaviour(fam, {"of": "xml", "filt": "", "xflags": 0, "sflags": 0, "extra": ["--bogus-option"]}))
+        behs.append(lstopo_behaviour(fam, {"of": "xml", "filt": "", "xflags": 0, "sflags": 0, "extra": ["-.xml", "second.xml"]}))
         behs.append(lstopo_behaviour(fam, {"of": "xml", "filt": "", "xflags": 0, "sflags": 0, "extra": ["--export-xml-flags"]}))
     return behs
 
@@ -352,10 +363,10 @@ def run(ctx, replay=None):
     # (1) TLC enumerates command lines per family, on the projection of the input the tools will get
     base = [["A"], ["all", "B"], ["X"], ["all", "X"]]
     if thorough:
-        runs = [("s", base + [["O", "P"]], 40, ctx.seed % 40, True),
-                ("m", [["M", "M"], ["O", "m", "m"], ["O", "R", "R"], ["m", "m", "m"]], 60, ctx.seed % 60, False)]
+        runs = [("s", base + [["O", "P"]], 150, ctx.seed % 150, True),
+                ("m", [["M", "M"], ["O", "m", "m"], ["O", "R", "R"], ["m", "m", "m"]], 1200, ctx.seed % 1200, False)]
     else:
-        runs = [("s", base, 600, ctx.seed % 600, True),
+        runs = [("s", base + [["O", "p"]], 600, ctx.seed % 600, True),
                 ("m", [["M", "M"], ["O", "m", "m"], ["m", "m", "m"]], 3000, ctx.seed % 3000, False)]
     jobs = []
     for fam in fams:
@@ -374,11 +385,12 @@ def run(ctx, replay=None):
             raise vlib.Infra("MC_Calc failed for family %s (model-level, not a violation): %s\n%s" % (fam[0], st["error"], out[-2500:]))
         return list(vlib.tlc_printed(out, "CALC")), list(vlib.tlc_printed(out, "DISTRIB"))
 
-    with cf.ThreadPoolExecutor(max_workers=3) as pool:
+    with cf.ThreadPoolExecutor(max_workers=4) as pool:
         results = list(pool.map(mc, jobs))
 
     # (2) behaviours: per family, batches of sessions; inputs of the recorded finding go to behaviours of their own
     behs = []
+    special = []     # inputs of a recorded finding: one session per behaviour, validated apart so that nothing else is masked
     per = 25
     ninv = 0
     for job, (calcs, distribs) in zip(jobs, results):
@@ -402,15 +414,22 @@ def run(ctx, replay=None):
             behs.append("\n".join(head + cur) + "\n")
         for s in calcs:
             if s["cls"]:
-                behs.append("\n".join(head + ["class " + s["cls"]] + session_lines(s)) + "\n")
+                special.append("\n".join(head + ["class " + s["cls"]] + session_lines(s)) + "\n")
             ninv += len(s["invs"])
     behs += lstopo_behaviours(fams, thorough)
     behs += diffpatch_behaviours(ctx, thorough)
     ctx.samples = [behs[0], behs[len(behs) // 2], behs[-1]]
+    rng.shuffle(special)
+    nspecial = len(special)
+    special = special[:60 if thorough else 12]
     tf = ctx.path("trace.ndjson")
     ex.run_all(behs, tf)
     rejs = ctx.validate("TraceCalc", tf, nshards=vlib.NCPU, timeout=3000)
-    ctx.handle_rejections(rejs, behs, replay_fn)
+    if special:
+        tf2 = ctx.path("trace-special.ndjson")
+        ex.run_all(special, tf2, base=len(behs))
+        rejs += ctx.validate("TraceCalc", tf2, nshards=4, timeout=3000, max_rej=len(special) + 1)
+    ctx.handle_rejections(rejs, behs + special, replay_fn)
     return ctx.finish(
         rule="for each input family TLC enumerates hwloc-calc command lines from MC_Calc.tla (location sequences over the token alphabet of the loaded "
              "projection x groups of output modes, striped), hwloc-distrib command lines, and fixed lstopo / hwloc-diff+patch scenarios; every "
@@ -418,4 +437,5 @@ def run(ctx, replay=None):
         assumptions=["hwloc-calc options --no-smt, --cpukind, --local-memory, --best-memattr, stdin mode and type filters ([subtype], [tier=]) are not modelled",
                      "where hwloc(7) leaves a location open (memory objects in chains, x:y starting past the level, guessed set formats that are ambiguous) only the exit status / absence of crash is checked",
                      "lstopo graphical and text renderings, hwloc-bind, hwloc-ps, hwloc-annotate, hwloc-info are outside the property"],
-        extra={"behaviours": len(behs), "invocations": ninv, "families": [f[0] for f in fams]})
+        extra={"behaviours": len(behs) + len(special), "invocations": ninv, "families": [f[0] for f in fams],
+               "recorded_finding_inputs": {"generated": nspecial, "run": len(special)}})
